@@ -205,7 +205,7 @@ fn acts() -> Vec<Act> {
         vec!["ZADD", "z", "1", "a", "x"], vec!["ZADD", "z", "1.5", "c"], vec!["ZADD", "z", "1", "c", "2", "c"], vec!["ZADD", "z"],
         vec!["ZINCRBY", "z", "1", "a"], vec!["ZINCRBY", "z", "-2.5", "b"], vec!["ZINCRBY", "z", "inf", "a"], vec!["ZINCRBY", "z", "-inf", "a"], vec!["ZINCRBY", "z", "nan", "a"],
         vec!["ZINCRBY", "z", "x", "a"], vec!["ZINCRBY", "z", "1", "new"], vec!["ZINCRBY", "z", "0", "zero"], vec!["ZINCRBY", "z", "1"],
-        vec!["ZREM", "z", "a"], vec!["ZREM", "z", "a", "b"], vec!["ZREM", "z", "a", "b", "c", "new"], vec!["ZREM", "z", "nope"], vec!["ZREM", "z"],
+        vec!["ZREM", "z", "a"], vec!["ZREM", "z", "a", "b"], vec!["ZREM", "z", "a", "b", "c", "new"], vec!["ZREM", "z", "nope"], vec!["ZREM", "z", "nope", "a", "b"], vec!["ZREM", "z"],
         vec!["ZPOPMIN", "z"], vec!["ZPOPMAX", "z"], vec!["ZPOPMIN", "z", "0"], vec!["ZPOPMIN", "z", "2"], vec!["ZPOPMAX", "z", "9"], vec!["ZPOPMIN", "z", "-1"], vec!["ZPOPMAX", "z", "x"],
         vec!["SET", "z", "str"], vec!["DEL", "z"], vec!["LPUSH", "w", "a"],
         // re-scoring one member between 0 and -0, and scores closer together than f64::EPSILON
